@@ -40,6 +40,22 @@ PROPS = {
         level_note="Trusted: Lean kernel, correspondence harness. Modelled by hand: diskbuffer.go, membuffer.go, filebuffer.go, slice.go. "
                    "Assumed: OS file semantics, well-behaved io.Reader sources.",
     ),
+    "C19": dict(
+        title="Header text is a fixpoint after one parse (no field smuggling)",
+        lean_modules=["Gowarc.Props.C19"],
+        n_quick=3000, n_thorough=40000,
+        required_theorems=["decode_id", "C19_fixpoint_false", "C19_api_false"],
+        model_assumptions=[
+            "bufio.Reader is modelled by its contract (ReadBytes, Peek); the implementation's independence of the underlying chunking is checked by running every case under four read styles",
+            "mime.WordDecoder.DecodeHeader, base64 decoding and strings.EqualFold are transcribed from the Go standard library (GOROOT of the pinned toolchain)",
+        ],
+        design_ref="DESIGN.md section 5, C19",
+        level_text="Executable model of the header tokenizer incl. the RFC 2047 decoder, tied by correspondence on seeded header sections under the three syntax policies and a reader fault; "
+                   "theorems: decoder is the identity on lines without '=?', and kernel-checked witnesses that the full statement is false (encoded-word smuggling, edge white space), both listed findings; "
+                   "the fixpoint oracle runs on the implementation for every generated section",
+        level_note="Trusted: Lean kernel, correspondence harness. The universal round-trip theorem for clean fields (C19_api) is stated in DESIGN.md and proved in Props/C01 (header framing lemmas); here the "
+                   "property is decided by witness + partial theorem + correspondence.",
+    ),
 }
 
 
